@@ -34,8 +34,11 @@ extern "C"
         // window injection: the window_index-th time (0-based) any thread stops at scheduling point `window_label`,
         // thread `window_thread` is run for the next `window_steps` decisions (if runnable) before the strategy resumes.
         // Sweeping (index, thread, steps) places another thread's steps systematically inside a check-then-sleep window.
+        // window_exclude != 0 inverts it: `window_thread` is NOT run for the next `window_steps` decisions (unless nothing
+        // else is runnable) - a consumer that lags while everybody else proceeds.
         const char* window_label;
         int window_index, window_thread, window_steps;
+        int window_exclude;
     };
 
     // hang callback: kind = "deadlock" | "livelock"; must not return (write the trace, then _exit)
